@@ -1,6 +1,5 @@
 # -*- coding: utf-8 -*-
 
-import copy
 import json
 from typing import (
     Any,
@@ -36,6 +35,19 @@ _UNSET = object()
 Resolver = Callable[..., Any]
 ResponsePath = List[Union[str, int]]
 GroupedFields = Dict[str, List[ast.Field]]
+
+
+def _copy_error(err: GraphQLLocatedError) -> GraphQLLocatedError:
+    # Do not go through ``__init__`` (as ``copy.copy`` does for exceptions):
+    # subclasses are free to define their own signature.
+    copied = type(err).__new__(type(err))
+    copied.args = err.args
+    copied.__dict__.update(err.__dict__)
+    copied.__cause__ = err.__cause__
+    copied.__context__ = err.__context__
+    copied.__suppress_context__ = err.__suppress_context__
+    copied.__traceback__ = err.__traceback__
+    return copied
 
 
 class ResolutionContext:
@@ -107,11 +119,16 @@ class ResolutionContext:
         """
         Register an error during the current execution.
         """
-        # The same exception object can be raised for several fields: every
-        # registered error needs its own path and nodes.
-        if any(err is registered for registered in self._errors):
-            err = copy.copy(err)
-            err.nodes = []
+        # The same exception object can be raised several times, for several
+        # fields or (e.g. a module level constant) for several requests: every
+        # registered error needs its own path and nodes, and an error which
+        # has already been handed out must not change afterwards.
+        as_raised = getattr(err, "_as_raised", None)
+        if as_raised is None:
+            err._as_raised = (list(err.nodes), err.path)  # type: ignore
+        else:
+            err = _copy_error(err)
+            err.nodes, err.path = list(as_raised[0]), as_raised[1]
 
         if node:
             if not err.nodes:
